@@ -447,6 +447,52 @@ fn classify(w: &World, rq: &RQuery, real: &J, m: &Mismatch, text: &str, o: &mut 
         };
         matches(real, &ev.eval_query(rq), "$").is_ok()
     });
+    // the roots of a query are independent statements: when no small combination explains the whole
+    // result, explain every root on its own and take the union
+    let found = match found {
+        Some(set) => Some(set),
+        None => {
+            let mut union: Vec<Quirk> = vec![];
+            let mut all = real.as_object().is_some();
+            if all {
+                for r in &rq.roots {
+                    let real_r = match real.get(&r.out) {
+                        Some(x) => x,
+                        None => {
+                            all = false;
+                            break;
+                        }
+                    };
+                    let one = explain(&mut |set: &[Quirk]| {
+                        let ev = Evaluator {
+                            schema: &w.schema,
+                            store: &w.store,
+                            quirks: Quirks(set.to_vec()),
+                        };
+                        matches(real_r, &Exp::List(ev.eval_ent(r, None)), &format!("$.{}", r.out)).is_ok()
+                    });
+                    match one {
+                        Some(set) => {
+                            for q in set {
+                                if !union.contains(&q) {
+                                    union.push(q);
+                                }
+                            }
+                        }
+                        None => {
+                            all = false;
+                            break;
+                        }
+                    }
+                }
+            }
+            if all {
+                Some(union)
+            } else {
+                None
+            }
+        }
+    };
     match found {
         Some(set) => {
             for q in &set {
